@@ -96,6 +96,9 @@ def run_case(op, xs, ks, sizes, params):
     # y: the values of x rotated by one row and doubled, so that missing values sit in different rows of the two columns
     ys = [xs[(i + 1) % n] * 2 for i in range(n)] if n else []
     full = pd.DataFrame({'x': xs, 'y': ys, 'k': ks}, index=index)
+    if op.get('categorical'):
+        # a categorical key that declares a category ('d') no row ever carries
+        full['k'] = pd.Categorical(ks, categories=['a', 'b', 'c', 'd'])
     if op.get('int_labels'):
         full = full.rename(columns={'x': 0, 'y': 1, 'k': 2})
     src = Stream()
@@ -245,6 +248,20 @@ def ops_for(pid):
                 'build': lambda s, p: getattr(s.window(n=n).groupby(2)[0], name)(),
                 'oracle': lambda d, p: getattr(d.iloc[-n:].groupby(2)[0], name)()}
 
+    def gb_cat(name, series_grouper=False):
+        # pandas (observed=True, the default of pandas 3) reports only the categories that occur
+        if series_grouper:
+            return {'name': 'groupby(sdf.k).x.%s [categorical key with an unused category]' % name, 'kind': P, 'index': 'int', 'categorical': True,
+                    'build': lambda s, p: getattr(s.groupby(s.k).x, name)(), 'oracle': lambda d, p: getattr(d.groupby(d.k, observed=True).x, name)()}
+        return {'name': "groupby('k').x.%s [categorical key with an unused category]" % name, 'kind': P, 'index': 'int', 'categorical': True,
+                'build': lambda s, p: getattr(s.groupby('k').x, name)(), 'oracle': lambda d, p: getattr(d.groupby('k', observed=True).x, name)()}
+
+    def win_npint(name, n):
+        import numpy as np
+        # the window size given as a numpy integer, on a time-indexed frame: still a window of n ROWS
+        return {'name': 'window(n=numpy.int64(%d)).x.%s [DatetimeIndex]' % (n, name), 'kind': P, 'index': 'time',
+                'build': lambda s, p: getattr(s.window(n=np.int64(n)).x, name)(), 'oracle': lambda d, p: getattr(d.x.iloc[-n:], name)()}
+
     def gbd(name, ddof):
         return {'name': "groupby('k').x.%s(ddof=%d)" % (name, ddof), 'kind': P, 'index': 'int',
                 'build': lambda s, p: getattr(s.groupby('k').x, name)(ddof=ddof),
@@ -384,13 +401,14 @@ def ops_for(pid):
     if pid == 'C06':
         return [red('sum'), red('count'), red('mean'), red('size'), red('sum', True), red('mean', True), red('count', True),
                 gb('sum'), gb('count'), gb('size'), gb('mean'), gb('var'), gb('std'), gb('sum', True), gb('mean', True),
-                gbd('var', 0), gbd('std', 0), vc(), gb_intlabels('sum'), gb_intlabels('mean'),
+                gbd('var', 0), gbd('std', 0), vc(), gb_intlabels('sum'), gb_intlabels('mean'), gb_cat('sum'), gb_cat('mean', True),
                 expanding('sum'), expanding('mean'), expanding('count'), expanding_frame('sum'), expanding_first('var')]
     if pid == 'C07':
         return [win('sum', 2), win('mean', 3), win('count', 1), win('var', 3), win('std', 2), win('size', 2),
                 wint('sum', 2), wint('mean', 1), wingb('sum', 2), wingb('mean', 3), wingb('count', 2), wingb('size', 3),
                 wind('var', 3, 0), wind('std', 3, 0), wingbd('var', 3, 0), wingbd('std', 2, 0), vc(1), vc(3),
-                wingb_array('sum', 2), wingb_array('count', 3), win_full_local(4), win_full_local(2), wingb_intlabels('sum', 3)]
+                wingb_array('sum', 2), wingb_array('count', 3), win_full_local(4), win_full_local(2), wingb_intlabels('sum', 3),
+                win_npint('sum', 2)]
     if pid == 'C11':
         return [roll('sum', 2), roll('mean', 3), roll('max', 1), roll('count', 3), roll_t('sum', 2), roll_t('mean', 3),
                 cumf('cumsum'), cumf('cummax'), cum_local('cumsum'), cum_local('cummin'), cum('cumsum'), cum('cumprod'), cum('cummax'),
